@@ -546,30 +546,70 @@ theorem reduceAxisKeep_attrs {α : Type} (ds r : Ds α) (name : String) (newAxis
     (∀ kv ∈ r.vars, ∃ kv0 ∈ ds.vars, kv.2.attrs = kv0.2.attrs) := C16.reduceAxisKeep_spec ds r name newAxis f hname h
 
 open DSV in
-/-- `Dataset.take_axis` (by position): Dataset and variable metadata kept, but the taken AXIS comes back WITHOUT its
-metadata (`Axis(np.take(labels, positions), name)`), unlike `DimArray.take_axis` (`takeAxis_axis_attrs`) -/
+/-- `Dataset.take_axis` (by position): Dataset and variable metadata kept, and the taken AXIS comes back WITH the
+metadata of the Dataset's axis of that name (`self.axes[axis].take(indices)`, `Axis.take`), as in `DimArray.take_axis`
+(`takeAxis_axis_attrs`) -/
 theorem takeAxisPosDs_attrs {α : Type} (ds r : Ds α) (name : String) (ps : List Nat) (h : takeAxisPosDs ds name ps = .ok r) :
-    r.attrs = ds.attrs ∧ (∀ e ∈ r.axes, e.name = name → e.attrs = []) ∧ (∃ e ∈ r.axes, e.name = name) ∧
-    (∀ kv ∈ r.vars, ∃ kv0 ∈ ds.vars, kv.2.attrs = kv0.2.attrs) := C16.takeAxisPosDs_spec ds r name ps h
+    r.attrs = ds.attrs ∧
+    (∀ e ∈ r.axes, e.name = name → ∃ ax, ds.axes.find? (·.name == name) = some ax ∧ e.attrs = ax.attrs) ∧
+    (∃ e ∈ r.axes, e.name = name) ∧
+    (∀ kv ∈ r.vars, ∃ kv0 ∈ ds.vars, kv.2.attrs = kv0.2.attrs) :=
+  have hs := C16.takeAxisPosDs_spec ds r name ps h
+  ⟨hs.1, hs.2.1, hs.2.2.1, hs.2.2.2.2⟩
+
+open DSV in
+/-- ... and every axis of the result that has the name of an axis of the Dataset has that axis' metadata -/
+theorem takeAxisPosDs_axis_attrs {α : Type} (ds r : Ds α) (name : String) (ps : List Nat)
+    (h : takeAxisPosDs ds name ps = .ok r) : (ds.axes.map (·.name)).Nodup → AxisAttrsKept ds.axes r.axes :=
+  C16.kept_of_known (C16.takeAxisPosDs_spec ds r name ps h).2.2.2.1
 
 open DSV in
 theorem takeAxisLabel_attrs {α : Type} (ds r : Ds α) (name : String) (labels : List Label) (clip : Bool)
     (h : takeAxisLabel ds name labels clip = .ok r) :
-    r.attrs = ds.attrs ∧ (∀ e ∈ r.axes, e.name = name → e.attrs = []) ∧ (∃ e ∈ r.axes, e.name = name) ∧
-    (∀ kv ∈ r.vars, ∃ kv0 ∈ ds.vars, kv.2.attrs = kv0.2.attrs) := C16.takeAxisLabel_spec ds r name labels clip h
+    r.attrs = ds.attrs ∧
+    (∀ e ∈ r.axes, e.name = name → ∃ ax, ds.axes.find? (·.name == name) = some ax ∧ e.attrs = ax.attrs) ∧
+    (∃ e ∈ r.axes, e.name = name) ∧
+    (∀ kv ∈ r.vars, ∃ kv0 ∈ ds.vars, kv.2.attrs = kv0.2.attrs) :=
+  have hs := C16.takeAxisLabel_spec ds r name labels clip h
+  ⟨hs.1, hs.2.1, hs.2.2.1, hs.2.2.2.2⟩
 
 open DSV in
-/-- `Dataset.sort_axis`: the sorted axis loses its metadata -/
+theorem takeAxisLabel_axis_attrs {α : Type} (ds r : Ds α) (name : String) (labels : List Label) (clip : Bool)
+    (h : takeAxisLabel ds name labels clip = .ok r) : (ds.axes.map (·.name)).Nodup → AxisAttrsKept ds.axes r.axes :=
+  C16.kept_of_known (C16.takeAxisLabel_spec ds r name labels clip h).2.2.2.1
+
+open DSV in
+/-- `Dataset.sort_axis`: the sorted axis keeps its metadata -/
 theorem sortAxisDs_attrs {α : Type} (ds r : Ds α) (name : String) (h : sortAxisDs ds name = .ok r) :
-    r.attrs = ds.attrs ∧ (∀ e ∈ r.axes, e.name = name → e.attrs = []) ∧ (∃ e ∈ r.axes, e.name = name) ∧
-    (∀ kv ∈ r.vars, ∃ kv0 ∈ ds.vars, kv.2.attrs = kv0.2.attrs) := C16.sortAxisDs_spec ds r name h
+    r.attrs = ds.attrs ∧
+    (∀ e ∈ r.axes, e.name = name → ∃ ax, ds.axes.find? (·.name == name) = some ax ∧ e.attrs = ax.attrs) ∧
+    (∃ e ∈ r.axes, e.name = name) ∧
+    (∀ kv ∈ r.vars, ∃ kv0 ∈ ds.vars, kv.2.attrs = kv0.2.attrs) :=
+  have hs := C16.sortAxisDs_spec ds r name h
+  ⟨hs.1, hs.2.1, hs.2.2.1, hs.2.2.2.2⟩
 
 open DSV in
-/-- `Dataset.reindex_axis`: the reindexed axis loses its metadata (contrast `reindexAxis_axis_attrs`) -/
+theorem sortAxisDs_axis_attrs {α : Type} (ds r : Ds α) (name : String) (h : sortAxisDs ds name = .ok r) :
+    (ds.axes.map (·.name)).Nodup → AxisAttrsKept ds.axes r.axes :=
+  C16.kept_of_known (C16.sortAxisDs_spec ds r name h).2.2.2.1
+
+open DSV in
+/-- `Dataset.reindex_axis`: the reindexed axis keeps its metadata, also when labels that did not match are written
+into it (as `reindexAxis_axis_attrs`) -/
 theorem reindexAxisDs_attrs {α : Type} (ds r : Ds α) (name : String) (newL : List Label) (nk : Kind) (fill : α) (fk : Kind)
     (h : reindexAxisDs ds name newL nk fill fk = .ok r) :
-    r.attrs = ds.attrs ∧ (∀ e ∈ r.axes, e.name = name → e.attrs = []) ∧ (∃ e ∈ r.axes, e.name = name) ∧
-    (∀ kv ∈ r.vars, ∃ kv0 ∈ ds.vars, kv.2.attrs = kv0.2.attrs) := C16.reindexAxisDs_spec ds r name newL nk fill fk h
+    r.attrs = ds.attrs ∧
+    (∀ e ∈ r.axes, e.name = name → ∃ ax, ds.axes.find? (·.name == name) = some ax ∧ e.attrs = ax.attrs) ∧
+    (∃ e ∈ r.axes, e.name = name) ∧
+    (∀ kv ∈ r.vars, ∃ kv0 ∈ ds.vars, kv.2.attrs = kv0.2.attrs) :=
+  have hs := C16.reindexAxisDs_spec ds r name newL nk fill fk h
+  ⟨hs.1, hs.2.1, hs.2.2.1, hs.2.2.2.2⟩
+
+open DSV in
+theorem reindexAxisDs_axis_attrs {α : Type} (ds r : Ds α) (name : String) (newL : List Label) (nk : Kind) (fill : α)
+    (fk : Kind) (h : reindexAxisDs ds name newL nk fill fk = .ok r) :
+    (ds.axes.map (·.name)).Nodup → AxisAttrsKept ds.axes r.axes :=
+  C16.kept_of_known (C16.reindexAxisDs_spec ds r name newL nk fill fk h).2.2.2.1
 
 open DSV in
 /-- `Dataset.mean / sum / ...` (`_apply_dimarray_axis` returns `Dataset(d)`): the Dataset's metadata is DROPPED -/
@@ -833,9 +873,9 @@ metadata of the axes (by name).  Every entry is a theorem of this file (or the o
 | `DSV.setItem`                      | kept (Dataset), variable keeps its own | `setItem_attrs` |                                       |                                  |
 | `DSV.fromVars` (`Dataset(dict)`)   | `[]` (new Dataset), variables keep theirs | `fromVars_attrs` |                                   |                                  |
 | `DSV.reduceAxisKeep`               | kept (Dataset and variables) | `reduceAxisKeep_attrs` | operated axis = the axis passed in                   | `reduceAxisKeep_attrs`           |
-| `DSV.takeAxisPosDs`, `takeAxisLabel` | kept (Dataset and variables) | `takeAxisPosDs_attrs`, `takeAxisLabel_attrs` | operated axis: DROPPED       | same                             |
-| `DSV.sortAxisDs`                   | kept (Dataset and variables) | `sortAxisDs_attrs` | operated axis: DROPPED                                  | same                             |
-| `DSV.reindexAxisDs`                | kept (Dataset and variables) | `reindexAxisDs_attrs` | operated axis: DROPPED                               | same                             |
+| `DSV.takeAxisPosDs`, `takeAxisLabel` | kept (Dataset and variables) | `takeAxisPosDs_attrs`, `takeAxisLabel_attrs` | operated axis: KEPT (the Dataset axis'); all kept by name | same, `takeAxisPosDs_axis_attrs`, `takeAxisLabel_axis_attrs` |
+| `DSV.sortAxisDs`                   | kept (Dataset and variables) | `sortAxisDs_attrs` | operated axis: KEPT; all kept by name                   | same, `sortAxisDs_axis_attrs`    |
+| `DSV.reindexAxisDs`                | kept (Dataset and variables) | `reindexAxisDs_attrs` | operated axis: KEPT (also when new labels are written); all kept by name | same, `reindexAxisDs_axis_attrs` |
 | `DSV.applyAxis` (`Dataset.mean` …) | Dataset metadata DROPPED | `applyAxis_attrs`  |                                                              |                                  |
 | `DSV.takeDs`                       | kept (Dataset and variables) | `takeDs_attrs` |                                                              |                                  |
 -/
